@@ -24,6 +24,8 @@ from .. import tlc
 from ..core import Ctx
 
 LEVEL = "model_checking"
+POL_SHORT = {"MunkresDecision": "munkres", "MyopicNaiveGreedyDecision": "greedy", "RandomDecision": "random",
+             "AllVisibleDecision": "allvisible"}
 POLICIES = ["MunkresDecision", "MyopicNaiveGreedyDecision", "RandomDecision", "AllVisibleDecision"]
 TAGS = ["asyncPropagate", "asyncPredict", "asyncCalculateReward", "asyncExecuteTasking", "asyncUpdateEstimate"]
 
@@ -278,6 +280,39 @@ def run(ctx: Ctx):
                                "verdict": {k: x for k, x in v.items() if k != "state"}, "events": tr["events"]})
     ctx.extra["traces_rejected"] = n_rej
     ctx.extra["scenario_families"] = len(jobs)
+    if not ctx.quick:
+        real_ray_traces(ctx)
+
+
+def real_ray_traces(ctx: Ctx):
+    """Thorough tier: scenarios under the REAL ray (completion order is whatever Ray produces)."""
+    import subprocess
+    import sys
+    from .. import sysrun
+    out = ctx.workdir / "realray.json"
+    env = dict(os.environ, VERIF_REAL_RAY="1")
+    p = subprocess.run([sys.executable, "-W", "ignore", "-m", "harness.realray_run", str(out), str(ctx.seed), "6"],
+                       env=env, capture_output=True, text=True, timeout=1800)
+    if p.returncode != 0 or not out.exists():
+        # Ray itself is not under test; if it cannot start in this sandbox the traces are simply not available
+        ctx.extra["real_ray"] = "unavailable: " + (p.stderr or p.stdout)[-300:]
+        return
+    runs = json.loads(out.read_text())
+    n_bad = 0
+    orders = 0
+    for i, r in enumerate(runs):
+        v = sysrun.validate(ctx, r["group"], [r["events"]], f"realray{i}")[0]
+        # was any batch merged out of submission order?  (informational: shows Ray really reorders)
+        seq = [e["a"] for e in r["events"] if e["ev"] == "CompletePropagate"]
+        orders += int(seq != sorted(seq, key=seq.index))
+        ctx.case(("realray", i, r["policy"], r["step"]), nontrivial=True)
+        if not v["ok"]:
+            n_bad += 1
+            what = v.get("invariant") or ("unexplained-" + str((v.get("event") or {}).get("ev", "end")))
+            ctx.violation(f"realray:{POL_SHORT.get(r['policy'], r['policy'])}:{what}",
+                          f"trace recorded under the real ray is not a behaviour of Resonaate.tla at event {v.get('at')}: "
+                          f"{json.dumps(v.get('event'))[:300]}", {"policy": r["policy"], "step": r["step"], "events": r["events"]})
+    ctx.extra["real_ray"] = f"{len(runs)} scenarios traced under real ray, {n_bad} rejected"
 
 
 def replay(ctx: Ctx, rp: dict):
